@@ -476,11 +476,12 @@ end attrs
 /-- `handle_error` of a collecting context records the error and returns -/
 theorem handle_error_collecting (W : Obj.World V) (o : Opts V) (hcol : Collecting o) (es : List (OVal V)) (e : OVal V) :
     Options.handle_error W (encCtx o es) e (.bool false) = .ok (encCtx o (es ++ [e]), .ret .none) := by
-  obtain ⟨omode, ad, ir, nd, dd, fd, iac, ce, me, mxp, mnp, iv, dfs, oci⟩ := o
-  obtain ⟨h1, h2⟩ := hcol
-  simp only at h1 h2
-  subst h1 h2
-  obj_simp [Options.handle_error, encCtx, encOpts, encOptNat, getattr, setattr, lookupAttr, setAttrL, append, OVal.isNone]
+  gen_obligation "C05_gen_parse_value (its lemma handle_error_collecting): the regenerated code (Utv.Gen) is no longer equal to the hand model here" by
+    obtain ⟨omode, ad, ir, nd, dd, fd, iac, ce, me, mxp, mnp, iv, dfs, oci⟩ := o
+    obtain ⟨h1, h2⟩ := hcol
+    simp only at h1 h2
+    subst h1 h2
+    obj_simp [Options.handle_error, encCtx, encOpts, encOptNat, getattr, setattr, lookupAttr, setAttrL, append, OVal.isNone]
 
 /-- `_invalid_value(error, raw, context, excluded_as_absent=True)` under a collecting context: the on_error policy -/
 theorem invalid_value_eq (W : Obj.World V) (W5 : C05.World V) (hcopy : CopyOk W W5) (o : Opts V) (f : PField V)
@@ -490,16 +491,17 @@ theorem invalid_value_eq (W : Obj.World V) (W5 : C05.World V) (hcopy : CopyOk W 
                     else (encCtx o [], .ret (.obj "Excluded" []))
       | .preserve => (encCtx o [], .ret (.val v))
       | .throw => (encCtx o [e], .ret .unprovided)) := by
-  have h1 := C05_gen_get_on_error W o f
-  have h2 := C05_gen_is_required W o f hl
-  have h3 := C05_gen_get_default W W5 hcopy o f false
-  have hh := handle_error_collecting W o hcol []
-  unfold Parse.invalid_value
-  cases hoe : getOnError o f <;> cases hreq : isRequired Legacy.none o f <;>
-    simp only [hoe, hreq] at h1 h2 <;>
-    simp only [getattr_ctx_options, bind, Except.bind, pure, Except.pure, ga_excluded, ga_exclude, ga_preserve, truthy_bool,
-      h1, h2, h3, hh, encOnErr, eq, eqS, Bool.false_eq_true, if_false, if_true, List.nil_append] <;>
-    rfl
+  gen_obligation "C05_gen_parse_value (its lemma invalid_value_eq): the regenerated code (Utv.Gen) is no longer equal to the hand model here" by
+    have h1 := C05_gen_get_on_error W o f
+    have h2 := C05_gen_is_required W o f hl
+    have h3 := C05_gen_get_default W W5 hcopy o f false
+    have hh := handle_error_collecting W o hcol []
+    unfold Parse.invalid_value
+    cases hoe : getOnError o f <;> cases hreq : isRequired Legacy.none o f <;>
+      simp only [hoe, hreq] at h1 h2 <;>
+      simp only [getattr_ctx_options, bind, Except.bind, pure, Except.pure, ga_excluded, ga_exclude, ga_preserve, truthy_bool,
+        h1, h2, h3, hh, encOnErr, eq, eqS, Bool.false_eq_true, if_false, if_true, List.nil_append] <;>
+      rfl
 
 theorem C05_gen_parse_value (W : Obj.World V) (W5 : C05.World V) (o : Opts V) (f : PField V) (v : V)
     (hl : LettersOk o f) (hcol : Collecting o) (hw : PVWorldOk W W5 f (encCtx o [])) :
